@@ -234,7 +234,7 @@ pub fn run(ctx: &Ctx) {
             }
         }
         for t in tuples {
-            if gen::vals_wire_representable(sch, &t) {
+            if gen::vals_wire_representable(sch, &t) && gen::vals_rfc_canonical(&t) {
                 work.push((sch.code, t));
             }
         }
